@@ -83,7 +83,10 @@ def judge (_id : String) (lines : Array String) : Verdict := Id.run do
           if !(st.recSince.any (fun r => r.1 == T && r.2.1 == n)) then
             st := { st with recSince := st.recSince ++ [(T, n, (st.directLog.filter (fun p => p.1 == T)).length)] }
         | .reg sp => st := addBr st s!"match-{sp.midx}"
-        | .upd _ _ _ => st := addBr st "update-spec"
+        | .upd T old _ =>
+          if !(st.model.specs.any (fun x => x.topic == T && x.hid == old)) then
+            return .badop s!"update of a handler spec that does not exist: {l}"
+          st := addBr st "update-spec"
         | .dereg _ _ => st := addBr st "dereg-spec"
         let before := st.model.log.length
         let (m', ok) := Svc.step st.model op
